@@ -238,18 +238,28 @@ def unroll_array_loops(blocks, locals_, max_len=4):
         if blk['cleanup'] or t['k'] != 'call' or t.get('target') is None or not t.get('callee'):
             continue
         c = t['callee']
-        if c.get('name') != 'into_iter' or len(t['args']) != 1 or not t['dest'] or t['dest']['proj']:
+        if c.get('name') not in ('into_iter', 'iter') or len(t['args']) != 1 or not t['dest'] or t['dest']['proj']:
             continue
         al = _plain_local(t['args'][0])
         if al is None:
             continue
         ds = _defs_of(blocks, al)
-        for _hop in range(4):   # the collection may have travelled through plain moves (an argument of an inlined helper)
+        by_ref = False      # `[a, b].iter()`: the walk yields references to the elements
+        for _hop in range(5):   # the collection may have travelled through plain moves (an argument of an inlined helper)
             if len(ds) == 1 and ds[0][1] == 'stmt' and ds[0][2]['rv'].get('k') == 'use' and _plain_local(ds[0][2]['rv']['op']) is not None \
                     and ds[0][2]['rv']['op']['k'] == 'move':
                 ds = _defs_of(blocks, _plain_local(ds[0][2]['rv']['op']))
+            elif c.get('name') == 'iter' and len(ds) == 1 and ds[0][1] == 'stmt' and ds[0][2]['rv'].get('k') == 'cast' \
+                    and _plain_local(ds[0][2]['rv'].get('op') or {}) is not None:
+                ds = _defs_of(blocks, _plain_local(ds[0][2]['rv']['op']))       # &[T; N] -> &[T]
+            elif c.get('name') == 'iter' and not by_ref and len(ds) == 1 and ds[0][1] == 'stmt' and ds[0][2]['rv'].get('k') == 'ref' \
+                    and not ds[0][2]['rv'].get('mut') and not ds[0][2]['rv']['place']['proj']:
+                by_ref = True
+                ds = _defs_of(blocks, ds[0][2]['rv']['place']['local'])
             else:
                 break
+        if c.get('name') == 'iter' and not by_ref:
+            continue
         once_call = None
         if len(ds) == 1 and ds[0][1] == 'call' and (ds[0][2].get('callee') or {}).get('def') in ('std::iter::once', 'core::iter::once') \
                 and len(ds[0][2]['args']) == 1 and ds[0][2].get('target') is not None:
@@ -323,7 +333,18 @@ def unroll_array_loops(blocks, locals_, max_len=4):
         for k, op in enumerate(ops):
             off = len(blocks)
             remap = {b_: off + 1 + i for i, b_ in enumerate(body_blocks)}
-            entry = {'cleanup': False, 'stmts': [{'k': 'assign', 'place': _pl(nl), 'rv': _agg(OPT, 'Some', 1, [op]), 'span': t['span']}],
+            pre_st = []
+            if by_ref:
+                if op.get('k') not in ('move', 'copy'):
+                    tmpv = len(locals_)
+                    locals_.append({'ty': UNK_TY, 'mut': True})
+                    pre_st.append({'k': 'assign', 'place': _pl(tmpv), 'rv': {'k': 'use', 'op': op}, 'span': t['span']})
+                    op = _mv(tmpv)
+                rl = len(locals_)
+                locals_.append({'ty': {'k': 'ref', 'mut': False, 'ty': UNK_TY, 's': '&?'}, 'mut': True})
+                pre_st.append({'k': 'assign', 'place': _pl(rl), 'rv': {'k': 'ref', 'mut': False, 'place': op['place']}, 'span': t['span']})
+                op = _mv(rl)
+            entry = {'cleanup': False, 'stmts': pre_st + [{'k': 'assign', 'place': _pl(nl), 'rv': _agg(OPT, 'Some', 1, [op]), 'span': t['span']}],
                      'term': {'k': 'goto', 'target': remap[body0]}}
             blocks.append(entry)
             entries.append(off)
